@@ -1,10 +1,27 @@
 import NurbsVerif.Model.Knots2
 import NurbsVerif.Lemmas.InsertModel
+import NurbsVerif.Lemmas.RemoveInvLib
+import NurbsVerif.Lemmas.RemoveInvSurf
+import NurbsVerif.Lemmas.RemoveInvVol
 
 /-!
 # C06  Removing a removable knot is exact and inverts insertion
 
-Model: `Geomdl.knotRemoval` (A5.8 as coded after the repair of F-06), `knotRemovalKv`.
+Model: `Geomdl.knotRemoval` (A5.8 as coded after the repair of F-06), `knotRemovalKv`,
+`removeKnotDir` / `removeKnot` (per-direction application of `operations.remove_knot`).
+
+Proved here (every degree / position / prior multiplicity / count): the knot vector part, the sizes,
+"insert `r` times then remove `t ≤ r` times = insert `r - t` times" (control points, exactly; `t = r`
+restores the original net) for curves, for both directions of surfaces and all three directions of
+volumes (gather / scatter of iso-curves as `operations.remove_knot` does it), the arguments the
+library computes for the removal (span `k + r`, multiplicity `s + r`), the object-level round trip
+for curves, and equality of evaluated curve points.  Not proved: removability of knots that were not
+inserted immediately before (refinement, "whenever removable at all").
+Proof idea (Lemmas/RemoveInv*.lean): in removal step `t` the left sweep solves
+`Q_i = α_i P_i + (1-α_i) P_{i-1}` for `P_i`, the right sweep for `P_{j-1}`; the removal alphas on
+the refined knots are the insertion alphas on the knots with one copy less; the removability test
+sees squared distance `0`; the copy-back loop leaves the net with one copy less (with a gap of
+`t + 1` stale slots that the final shift closes).
 -/
 namespace C06
 open Geomdl
@@ -38,7 +55,256 @@ theorem removeKv_length (U : List K) (span r : ℕ) (h1 : r ≤ span + 1) (h2 : 
     simp only [List.length_append, List.length_take, List.length_drop]
     omega
 
-/-- non-vacuity / concrete instance -/
+
+/-! ### control points -/
+
+/-- **Insert once, remove once.**  For every degree `p`, sorted knot vector, control polygon of any
+    dimension `d`, parameter `ub` in the span `k` (`ub < U (k+1)`) with prior multiplicity `s`
+    (`U (k-s) < ub`; the knots `k-s+1..k` may or may not equal `ub` – only this inequality is used),
+    `1 + s ≤ p ≤ k < #P`, and every tolerance `tol2 ≥ 0`: A5.1 followed by A5.8, called as the library
+    calls it after the insertion (multiplicity `s + 1`, span `k + 1`, knots = the refined knot vector),
+    returns the original control polygon EXACTLY. -/
+theorem insert_once_remove_once (p : ℕ) (Ul : List K) (P : List (List K)) (ub : K) (s k d : ℕ) (tol2 : K)
+    (hP : NetOk d P) (hm : Monotone (fnOf Ul)) (hlen : k + 1 < Ul.length)
+    (hk2 : ub < fnOf Ul (k + 1)) (hs : fnOf Ul (k - s) < ub)
+    (hrs : 1 + s ≤ p) (hpk : p ≤ k) (hkP : k < P.length) (htol : 0 ≤ tol2) :
+    knotRemoval p (fnOf (knotInsertionKv Ul ub k 1)) (knotInsertion p (fnOf Ul) P ub 1 s k) ub 1 (s + 1) (k + 1) tol2 = P :=
+  RemInv.remove_inverts_insert p Ul P ub 1 s k d tol2 hP hm hlen hk2 hs (le_refl _) hrs hpk hkP htol
+
+/-- **Insert `r` times, remove `r` times**: restores the original control polygon exactly
+    (`1 ≤ r`, `r + s ≤ p`; removal called with multiplicity `s + r` and span `k + r`). -/
+theorem insert_r_remove_r (p : ℕ) (Ul : List K) (P : List (List K)) (ub : K) (r s k d : ℕ) (tol2 : K)
+    (hP : NetOk d P) (hm : Monotone (fnOf Ul)) (hlen : k + 1 < Ul.length)
+    (hk2 : ub < fnOf Ul (k + 1)) (hs : fnOf Ul (k - s) < ub)
+    (hr1 : 1 ≤ r) (hrs : r + s ≤ p) (hpk : p ≤ k) (hkP : k < P.length) (htol : 0 ≤ tol2) :
+    knotRemoval p (fnOf (knotInsertionKv Ul ub k r)) (knotInsertion p (fnOf Ul) P ub r s k) ub r (s + r) (k + r) tol2 = P :=
+  RemInv.remove_inverts_insert p Ul P ub r s k d tol2 hP hm hlen hk2 hs hr1 hrs hpk hkP htol
+
+/-- **Insert `r` times, remove `t ≤ r` times**: the result is exactly the control polygon that `r - t`
+    insertions produce (every removal count up to the number inserted). -/
+theorem insert_r_remove_t (p : ℕ) (Ul : List K) (P : List (List K)) (ub : K) (r t s k d : ℕ) (tol2 : K)
+    (hP : NetOk d P) (hm : Monotone (fnOf Ul)) (hlen : k + 1 < Ul.length)
+    (hk2 : ub < fnOf Ul (k + 1)) (hs : fnOf Ul (k - s) < ub)
+    (ht1 : 1 ≤ t) (htr : t ≤ r) (hrs : r + s ≤ p) (hpk : p ≤ k) (hkP : k < P.length) (htol : 0 ≤ tol2) :
+    knotRemoval p (fnOf (knotInsertionKv Ul ub k r)) (knotInsertion p (fnOf Ul) P ub r s k) ub t (s + r) (k + r) tol2
+      = knotInsertion p (fnOf Ul) P ub (r - t) s k :=
+  RemInv.remove_t_of_r p Ul P ub r t s k d tol2 hP hm hlen hk2 hs ht1 htr hrs hpk hkP htol
+
+/-- **Sizes**: the control polygon returned by `knot_removal` has exactly `num` points less – for
+    every input (no hypotheses: removable or not, any span / multiplicity arguments). -/
+theorem remove_net_length (p : ℕ) (U : ℕ → K) (P : List (List K)) (u : K) (num s r : ℕ) (tol2 : K) :
+    (knotRemoval p U P u num s r tol2).length = P.length - num :=
+  RemInv.knotRemoval_length p U P u num s r tol2
+
+/-! ### what the library passes to the removal after an insertion -/
+
+/-- `find_span_linear` on the refined knot vector returns `k + r` (`k` = span found before). -/
+theorem span_after_insertion (p : ℕ) (Ul : List K) (n r : ℕ) (ub : K)
+    (hm : Monotone (fnOf Ul)) (hlen : Ul.length = n + p + 1) (hpn : p + 1 ≤ n)
+    (hub1 : fnOf Ul p ≤ ub) (hub2 : ub < fnOf Ul n) (hr : 1 ≤ r) :
+    findSpanLinear p (fnOf (knotInsertionKv Ul ub (findSpanLinear p (fnOf Ul) n ub) r)) (n + r) ub
+      = findSpanLinear p (fnOf Ul) n ub + r :=
+  RemInv.span_after_insert_self p Ul n r ub hm hlen hpn hub1 hub2 hr
+
+/-- `find_multiplicity` on the refined knot vector returns the old multiplicity plus `r`. -/
+theorem multiplicity_after_insertion (Ul : List K) (ub tol : K) (k r : ℕ) (htol : 0 ≤ tol) :
+    findMultiplicity ub (knotInsertionKv Ul ub k r) tol = findMultiplicity ub Ul tol + r :=
+  RemInv.mult_after_insert Ul ub tol k r htol
+
+/-- knot vector part for partial removals: `r` copies in, `t ≤ r` copies out = `r - t` copies in. -/
+theorem removeKv_after_insertKv (U : List K) (u : K) (k r t : ℕ) (hk : k < U.length) (htr : t ≤ r) :
+    knotRemovalKv (knotInsertionKv U u k r) (k + r) t = knotInsertionKv U u k (r - t) :=
+  RemInv.removeKv_t_of_r U u k r t hk htr
+
+/-- **Object level, curves** (`operations.insert_knot` then `operations.remove_knot`, one direction,
+    multiplicity check on, spans and multiplicities computed by the library's own searches – for the
+    removal on the refined object): the original object comes back – degree, knot vector, size, control
+    points.  `hs` says that the multiplicity found with tolerance `tol` is the true one (the knot
+    before the run of `s` is strictly smaller). -/
+theorem curve_insert_then_remove (rat : Bool) (p : ℕ) (Ul : List K) (P : List (List K)) (ub tol tol2 : K) (r d : ℕ)
+    (hP : NetOk d P) (hm : Monotone (fnOf Ul)) (hlen : Ul.length = P.length + p + 1) (hpn : p + 1 ≤ P.length)
+    (hub1 : fnOf Ul p ≤ ub) (hub2 : ub < fnOf Ul P.length)
+    (hs : fnOf Ul (findSpanLinear p (fnOf Ul) P.length ub - findMultiplicity ub Ul tol) < ub)
+    (hr1 : 1 ≤ r) (hrs : r + findMultiplicity ub Ul tol ≤ p) (htol : 0 ≤ tol) (htol2 : 0 ≤ tol2) :
+    removeKnot (insertKnot (RemInv.curveShape rat p Ul P) [some ub] [r] tol true).1 [some ub] [r] tol tol2 true
+      = (RemInv.curveShape rat p Ul P, true) :=
+  RemInv.curve_insertKnot_removeKnot rat p Ul P ub tol tol2 r d hP hm hlen hpn hub1 hub2 hs hr1 hrs htol htol2
+
+/-! ### evaluated points -/
+
+/-- **Removing inserted knots does not change the shape** (curves): insert `ub` `r` times at the
+    span the library finds (true prior multiplicity `s`), remove it `t` times, `1 ≤ t ≤ r`.  For EVERY
+    parameter `u` of the domain (both ends included) and every coordinate `j`, the point of the curve
+    after the removal (knot vector from `knot_removal_kv`, control points from `knot_removal`) equals
+    the point of the curve before the removal, which equals the point of the original curve (C04). -/
+theorem remove_preserves_curve (p : ℕ) (Ul : List K) (P : List (List K)) (ub u : K)
+    (r t s d j : ℕ) (tol2 : K) (hP : NetOk d P)
+    (hm : Monotone (fnOf Ul)) (hlen : Ul.length = P.length + p + 1) (hpn : p + 1 ≤ P.length)
+    (hub1 : fnOf Ul p ≤ ub) (hub2 : ub < fnOf Ul P.length)
+    (hmult : ∀ x, findSpanLinear p (fnOf Ul) P.length ub - s < x → x ≤ findSpanLinear p (fnOf Ul) P.length ub → fnOf Ul x = ub)
+    (hs : fnOf Ul (findSpanLinear p (fnOf Ul) P.length ub - s) < ub)
+    (ht1 : 1 ≤ t) (htr : t ≤ r) (hrs : r + s ≤ p) (htol : 0 ≤ tol2)
+    (hlo : fnOf Ul p ≤ u) (hhi : u ≤ fnOf Ul P.length) (hlast : fnOf Ul (P.length - 1) < fnOf Ul P.length) :
+    (curvePoint p (fnOf (knotRemovalKv (knotInsertionKv Ul ub (findSpanLinear p (fnOf Ul) P.length ub) r)
+          (findSpanLinear p (fnOf Ul) P.length ub + r) t))
+        (knotRemoval p (fnOf (knotInsertionKv Ul ub (findSpanLinear p (fnOf Ul) P.length ub) r))
+          (knotInsertion p (fnOf Ul) P ub r s (findSpanLinear p (fnOf Ul) P.length ub)) ub t (s + r)
+          (findSpanLinear p (fnOf Ul) P.length ub + r) tol2) u).getD j 0
+      = (curvePoint p (fnOf (knotInsertionKv Ul ub (findSpanLinear p (fnOf Ul) P.length ub) r))
+          (knotInsertion p (fnOf Ul) P ub r s (findSpanLinear p (fnOf Ul) P.length ub)) u).getD j 0
+      ∧ (curvePoint p (fnOf (knotInsertionKv Ul ub (findSpanLinear p (fnOf Ul) P.length ub) r))
+          (knotInsertion p (fnOf Ul) P ub r s (findSpanLinear p (fnOf Ul) P.length ub)) u).getD j 0
+        = (curvePoint p (fnOf Ul) P u).getD j 0 :=
+  RemInv.remove_preserves_curve p Ul P ub u r t s d j tol2 hP hm hlen hpn hub1 hub2 hmult hs ht1 htr hrs htol hlo hhi hlast
+
+/-! ### surfaces (per-direction application) -/
+
+/-- **Surfaces, v direction**: the gather / scatter of `operations.remove_knot` (every row – iso-curve
+    `u = const` – through A5.8, `t ≤ r` removals) applied to the net produced by the gather / scatter of
+    `operations.insert_knot` (`r` insertions) gives exactly the net and v-size of `r - t` insertions;
+    hence (C04 `insert_v_preserves_surface_point`) the same surface. -/
+theorem surface_v_insert_r_remove_t (Ul : List K) (P : List (List K)) (ub : K) (p r t s k d su sv : ℕ) (tol2 : K)
+    (hP : NetOk d P) (hlenP : P.length = su * sv)
+    (hm : Monotone (fnOf Ul)) (hlen : k + 1 < Ul.length)
+    (hk2 : ub < fnOf Ul (k + 1)) (hs : fnOf Ul (k - s) < ub)
+    (ht1 : 1 ≤ t) (htr : t ≤ r) (hrs : r + s ≤ p) (hpk : p ≤ k) (htol : 0 ≤ tol2) (hsu : 0 < su) (hk : k < sv) :
+    mapSurfV su (sv + r) (mapSurfV su sv P (fun c => knotInsertion p (fnOf Ul) c ub r s k)).1
+        (fun c => knotRemoval p (fnOf (knotInsertionKv Ul ub k r)) c ub t (s + r) (k + r) tol2)
+      = mapSurfV su sv P (fun c => knotInsertion p (fnOf Ul) c ub (r - t) s k) :=
+  RemInv.surfV_remove_t_of_r Ul P ub p r t s k d su sv tol2 hP hlenP hm hlen hk2 hs ht1 htr hrs hpk htol hsu hk
+
+/-- **Surfaces, u direction** (columns – iso-curves `v = const`). -/
+theorem surface_u_insert_r_remove_t (Ul : List K) (P : List (List K)) (ub : K) (p r t s k d su sv : ℕ) (tol2 : K)
+    (hP : NetOk d P) (hlenP : P.length = su * sv)
+    (hm : Monotone (fnOf Ul)) (hlen : k + 1 < Ul.length)
+    (hk2 : ub < fnOf Ul (k + 1)) (hs : fnOf Ul (k - s) < ub)
+    (ht1 : 1 ≤ t) (htr : t ≤ r) (hrs : r + s ≤ p) (hpk : p ≤ k) (htol : 0 ≤ tol2) (hsv : 0 < sv) (hk : k < su) :
+    mapSurfU (su + r) sv (mapSurfU su sv P (fun c => knotInsertion p (fnOf Ul) c ub r s k)).1
+        (fun c => knotRemoval p (fnOf (knotInsertionKv Ul ub k r)) c ub t (s + r) (k + r) tol2)
+      = mapSurfU su sv P (fun c => knotInsertion p (fnOf Ul) c ub (r - t) s k) :=
+  RemInv.surfU_remove_t_of_r Ul P ub p r t s k d su sv tol2 hP hlenP hm hlen hk2 hs ht1 htr hrs hpk htol hsv hk
+
+/-- **Surfaces, v direction, round trip**: `r` insertions then `r` removals restore the control net
+    (and the v-size) exactly. -/
+theorem surface_v_insert_r_remove_r (Ul : List K) (P : List (List K)) (ub : K) (p r s k d su sv : ℕ) (tol2 : K)
+    (hP : NetOk d P) (hlenP : P.length = su * sv)
+    (hm : Monotone (fnOf Ul)) (hlen : k + 1 < Ul.length)
+    (hk2 : ub < fnOf Ul (k + 1)) (hs : fnOf Ul (k - s) < ub)
+    (hr1 : 1 ≤ r) (hrs : r + s ≤ p) (hpk : p ≤ k) (htol : 0 ≤ tol2) (hsu : 0 < su) (hk : k < sv) :
+    mapSurfV su (sv + r) (mapSurfV su sv P (fun c => knotInsertion p (fnOf Ul) c ub r s k)).1
+        (fun c => knotRemoval p (fnOf (knotInsertionKv Ul ub k r)) c ub r (s + r) (k + r) tol2) = (P, sv) :=
+  RemInv.surfV_remove_inverts_insert Ul P ub p r s k d su sv tol2 hP hlenP hm hlen hk2 hs hr1 hrs hpk htol hsu hk
+
+/-- **Surfaces, u direction, round trip**. -/
+theorem surface_u_insert_r_remove_r (Ul : List K) (P : List (List K)) (ub : K) (p r s k d su sv : ℕ) (tol2 : K)
+    (hP : NetOk d P) (hlenP : P.length = su * sv)
+    (hm : Monotone (fnOf Ul)) (hlen : k + 1 < Ul.length)
+    (hk2 : ub < fnOf Ul (k + 1)) (hs : fnOf Ul (k - s) < ub)
+    (hr1 : 1 ≤ r) (hrs : r + s ≤ p) (hpk : p ≤ k) (htol : 0 ≤ tol2) (hsv : 0 < sv) (hk : k < su) :
+    mapSurfU (su + r) sv (mapSurfU su sv P (fun c => knotInsertion p (fnOf Ul) c ub r s k)).1
+        (fun c => knotRemoval p (fnOf (knotInsertionKv Ul ub k r)) c ub r (s + r) (k + r) tol2) = (P, su) :=
+  RemInv.surfU_remove_inverts_insert Ul P ub p r s k d su sv tol2 hP hlenP hm hlen hk2 hs hr1 hrs hpk htol hsv hk
+
+/-! ### volumes (per-direction application; layout `v + sv*(u + su*w)`) -/
+
+/-- **Volumes, u direction** (`dir = 0`): every iso-curve along u goes through A5.1 (`r` copies), the
+    net is scattered back, gathered again and every iso-curve goes through A5.8 (`t ≤ r` removals): the
+    result (net and u-size) is exactly that of `r - t` insertions. -/
+theorem volume_u_insert_r_remove_t (Ul : List K) (P : List (List K)) (ub : K) (p r t s k d su sv sw : ℕ) (tol2 : K)
+    (hP : NetOk d P) (hlenP : P.length = su * sv * sw) (hsu : 0 < su) (hsv : 0 < sv) (hsw : 0 < sw)
+    (hm : Monotone (fnOf Ul)) (hlen : k + 1 < Ul.length)
+    (hk2 : ub < fnOf Ul (k + 1)) (hs : fnOf Ul (k - s) < ub)
+    (ht1 : 1 ≤ t) (htr : t ≤ r) (hrs : r + s ≤ p) (hpk : p ≤ k) (htol : 0 ≤ tol2) (hk : k < su) :
+    mapVol 0 (su + r) sv sw (mapVol 0 su sv sw P (fun c => knotInsertion p (fnOf Ul) c ub r s k)).1
+        (fun c => knotRemoval p (fnOf (knotInsertionKv Ul ub k r)) c ub t (s + r) (k + r) tol2)
+      = mapVol 0 su sv sw P (fun c => knotInsertion p (fnOf Ul) c ub (r - t) s k) :=
+  RemInv.volU_remove_t_of_r Ul P ub p r t s k d su sv sw tol2 hP hlenP hsu hsv hsw hm hlen hk2 hs ht1 htr hrs hpk htol hk
+
+/-- **Volumes, v direction** (`dir = 1`). -/
+theorem volume_v_insert_r_remove_t (Ul : List K) (P : List (List K)) (ub : K) (p r t s k d su sv sw : ℕ) (tol2 : K)
+    (hP : NetOk d P) (hlenP : P.length = su * sv * sw) (hsu : 0 < su) (hsv : 0 < sv) (hsw : 0 < sw)
+    (hm : Monotone (fnOf Ul)) (hlen : k + 1 < Ul.length)
+    (hk2 : ub < fnOf Ul (k + 1)) (hs : fnOf Ul (k - s) < ub)
+    (ht1 : 1 ≤ t) (htr : t ≤ r) (hrs : r + s ≤ p) (hpk : p ≤ k) (htol : 0 ≤ tol2) (hk : k < sv) :
+    mapVol 1 su (sv + r) sw (mapVol 1 su sv sw P (fun c => knotInsertion p (fnOf Ul) c ub r s k)).1
+        (fun c => knotRemoval p (fnOf (knotInsertionKv Ul ub k r)) c ub t (s + r) (k + r) tol2)
+      = mapVol 1 su sv sw P (fun c => knotInsertion p (fnOf Ul) c ub (r - t) s k) :=
+  RemInv.volV_remove_t_of_r Ul P ub p r t s k d su sv sw tol2 hP hlenP hsu hsv hsw hm hlen hk2 hs ht1 htr hrs hpk htol hk
+
+/-- **Volumes, w direction** (`dir = 2`). -/
+theorem volume_w_insert_r_remove_t (Ul : List K) (P : List (List K)) (ub : K) (p r t s k d su sv sw : ℕ) (tol2 : K)
+    (hP : NetOk d P) (hlenP : P.length = su * sv * sw) (hsu : 0 < su) (hsv : 0 < sv) (hsw : 0 < sw)
+    (hm : Monotone (fnOf Ul)) (hlen : k + 1 < Ul.length)
+    (hk2 : ub < fnOf Ul (k + 1)) (hs : fnOf Ul (k - s) < ub)
+    (ht1 : 1 ≤ t) (htr : t ≤ r) (hrs : r + s ≤ p) (hpk : p ≤ k) (htol : 0 ≤ tol2) (hk : k < sw) :
+    mapVol 2 su sv (sw + r) (mapVol 2 su sv sw P (fun c => knotInsertion p (fnOf Ul) c ub r s k)).1
+        (fun c => knotRemoval p (fnOf (knotInsertionKv Ul ub k r)) c ub t (s + r) (k + r) tol2)
+      = mapVol 2 su sv sw P (fun c => knotInsertion p (fnOf Ul) c ub (r - t) s k) :=
+  RemInv.volW_remove_t_of_r Ul P ub p r t s k d su sv sw tol2 hP hlenP hsu hsv hsw hm hlen hk2 hs ht1 htr hrs hpk htol 2 (le_refl _) hk
+
+/-- **Volumes, round trip in every direction**: `r` insertions then `r` removals along u, v or w
+    restore the control net and the size of that direction exactly. -/
+theorem volume_insert_r_remove_r (Ul : List K) (P : List (List K)) (ub : K) (p r  s k d su sv sw : ℕ) (tol2 : K)
+    (hP : NetOk d P) (hlenP : P.length = su * sv * sw) (hsu : 0 < su) (hsv : 0 < sv) (hsw : 0 < sw)
+    (hm : Monotone (fnOf Ul)) (hlen : k + 1 < Ul.length)
+    (hk2 : ub < fnOf Ul (k + 1)) (hs : fnOf Ul (k - s) < ub)
+    (hr1 : 1 ≤ r) (hrs : r + s ≤ p) (hpk : p ≤ k) (htol : 0 ≤ tol2) :
+    (k < su → mapVol 0 (su + r) sv sw (mapVol 0 su sv sw P (fun c => knotInsertion p (fnOf Ul) c ub r s k)).1
+        (fun c => knotRemoval p (fnOf (knotInsertionKv Ul ub k r)) c ub r (s + r) (k + r) tol2) = (P, su)) ∧
+    (k < sv → mapVol 1 su (sv + r) sw (mapVol 1 su sv sw P (fun c => knotInsertion p (fnOf Ul) c ub r s k)).1
+        (fun c => knotRemoval p (fnOf (knotInsertionKv Ul ub k r)) c ub r (s + r) (k + r) tol2) = (P, sv)) ∧
+    (k < sw → mapVol 2 su sv (sw + r) (mapVol 2 su sv sw P (fun c => knotInsertion p (fnOf Ul) c ub r s k)).1
+        (fun c => knotRemoval p (fnOf (knotInsertionKv Ul ub k r)) c ub r (s + r) (k + r) tol2) = (P, sw)) :=
+  ⟨RemInv.volU_remove_inverts_insert Ul P ub p r s k d su sv sw tol2 hP hlenP hsu hsv hsw hm hlen hk2 hs hr1 hrs hpk htol,
+   RemInv.volV_remove_inverts_insert Ul P ub p r s k d su sv sw tol2 hP hlenP hsu hsv hsw hm hlen hk2 hs hr1 hrs hpk htol,
+   RemInv.volW_remove_inverts_insert Ul P ub p r s k d su sv sw tol2 hP hlenP hsu hsv hsw hm hlen hk2 hs hr1 hrs hpk htol 2 (le_refl _)⟩
+
+/-! ### non-vacuity -/
+
+/-- quadratic, knots 0,0,0,1,2,2,2, four points in the plane: the hypotheses of the round-trip
+    theorems hold for `ub = 1` (an existing knot: `k = 3`, `s = 1`, `r = 1`) … -/
+example : knotRemoval 2 (fnOf (knotInsertionKv ([0,0,0,1,2,2,2] : List ℚ) 1 3 1))
+    (knotInsertion 2 (fnOf ([0,0,0,1,2,2,2] : List ℚ)) [[0,0],[1,2],[3,1],[4,0]] 1 1 1 3) 1 1 (1 + 1) (3 + 1) 0
+      = [[0,0],[1,2],[3,1],[4,0]] := by
+  apply insert_once_remove_once 2 _ _ 1 1 3 2 0
+  · intro pt hpt; simp at hpt; rcases hpt with h | h | h | h <;> simp [h]
+  · apply monotone_nat_of_le_succ
+    intro n
+    rcases n with _|_|_|_|_|_|_|n <;> simp [fnOf, List.getD]
+  · simp
+  · simp [fnOf, List.getD]
+  · simp [fnOf, List.getD]
+  · omega
+  · omega
+  · simp
+  · exact le_refl _
+
+/-- … and for `ub = 1/2` (a new knot: `k = 2`, `s = 0`) inserted and removed twice -/
+example : knotRemoval 2 (fnOf (knotInsertionKv ([0,0,0,1,2,2,2] : List ℚ) (1/2) 2 2))
+    (knotInsertion 2 (fnOf ([0,0,0,1,2,2,2] : List ℚ)) [[0,0],[1,2],[3,1],[4,0]] (1/2) 2 0 2) (1/2) 2 (0 + 2) (2 + 2) 0
+      = [[0,0],[1,2],[3,1],[4,0]] := by
+  apply insert_r_remove_r 2 _ _ (1/2) 2 0 2 2 0
+  · intro pt hpt; simp at hpt; rcases hpt with h | h | h | h <;> simp [h]
+  · apply monotone_nat_of_le_succ
+    intro n
+    rcases n with _|_|_|_|_|_|_|n <;> simp [fnOf, List.getD]
+  · simp
+  · simp [fnOf, List.getD]; norm_num
+  · simp [fnOf, List.getD]
+  · omega
+  · omega
+  · omega
+  · simp
+  · exact le_refl _
+
+/-- … and the library's own searches give `k = 3`, `s = 1` there, with the knot before the run
+    strictly smaller (hypothesis `hs` of `curve_insert_then_remove` / `remove_preserves_curve`) -/
+example : findSpanLinear 2 (fnOf ([0,0,0,1,2,2,2] : List ℚ)) 4 1 = 3 ∧ findMultiplicity 1 ([0,0,0,1,2,2,2] : List ℚ) 0 = 1 ∧
+    fnOf ([0,0,0,1,2,2,2] : List ℚ) (findSpanLinear 2 (fnOf ([0,0,0,1,2,2,2] : List ℚ)) 4 1
+      - findMultiplicity 1 ([0,0,0,1,2,2,2] : List ℚ) 0) < 1 := by
+  decide +kernel
+
+/-- non-vacuity / concrete instance (knot vector part) -/
 example : knotRemovalKv (knotInsertionKv ([0,0,0,1,1,1] : List ℚ) (1/2) 2 2) 4 2 = [0,0,0,1,1,1] := by
   decide
 
